@@ -2,7 +2,7 @@ package actionlint
 
 import "regexp"
 
-var deprecatedCommandsPattern = regexp.MustCompile(`(?:::(save-state|set-output|set-env)\s+name=[a-zA-Z][a-zA-Z_-]*::\S+|::(add-path)::\S+)`)
+var deprecatedCommandsPattern = regexp.MustCompile(`(?:::(save-state|set-output|set-env)\s+name=[a-zA-Z_][a-zA-Z0-9_-]*::\S+|::(add-path)::\S+)`)
 
 // RuleDeprecatedCommands is a rule checker to detect deprecated workflow commands. Currently
 // 'set-state', 'set-output', `set-env' and 'add-path' are detected as deprecated.
